@@ -48,6 +48,7 @@ RULES = {
     "R8": "`crate::`/module path prefix removed or constant path renamed (single-file unit has one module)",
     "R9": "panic-family macro with format arguments -> same macro without the formatted message",
     "R10": "type alias / `Self::X` assoc-type path spelled out",
+    "R12": "one-line forwarding over a generic SliceIndex (`impl Index for Bytes`, `Bytes::subset`) inlined at the call site: `b[i]` -> `b.data[i]`, `b.subset(r)` -> `Bytes::new(&b.data[r], b.version)`",
     "R11": "`const X: T = e;` written in Verus's exec-const form `exec const X: T ensures .. { e }` (same initializer expression)",
 }
 
@@ -555,6 +556,24 @@ class Extractor:
                     if toks[k].text == ";":
                         start = k + 1
                     k += 1
+                # skip block-like statements (for/while/loop/if/match) that precede the tail expression
+                while start < it.last and toks[start].kind == "ident" and toks[start].text in ("for", "while", "loop", "if", "match"):
+                    k2 = start + 1
+                    while k2 < it.last and toks[k2].text != "{":
+                        if toks[k2].text in ("(", "["):
+                            k2 = brk[k2]
+                        k2 += 1
+                    endb = brk[k2]
+                    while endb + 1 < it.last and toks[endb + 1].text == "else":
+                        k2 = endb + 2
+                        while k2 < it.last and toks[k2].text != "{":
+                            if toks[k2].text in ("(", "["):
+                                k2 = brk[k2]
+                            k2 += 1
+                        endb = brk[k2]
+                    if endb + 1 >= it.last:
+                        break
+                    start = endb + 1
                 if start >= it.last:
                     raise ExtractError("lost-anchor", f"{where}: fn {f['path']} has no tail expression")
                 nm = arg.split(":")[0].strip()
